@@ -105,6 +105,13 @@ def make(cfg_in):
                     if entry == 'ed_join':
                         Lf = pdmodel.FakeFrame(lrows, columns=cols)
                         Rf = pdmodel.FakeFrame(rrows, columns=cols)
+                        if cfg.get('warmup_q'):
+                            # an earlier call in the same process with another q-gram size: its result is
+                            # irrelevant, the call under test must not be affected by it (C12)
+                            repo.mod('').edit_distance_join(
+                                pdmodel.FakeFrame(lrows, columns=cols), pdmodel.FakeFrame(rrows, columns=cols),
+                                'id', 'id', 'attr', 'attr', tau, '<=', False, None, None, 'l_', 'r_', True, 1,
+                                False, QgramTokenizer(qval=cfg['warmup_q'], padding=padding, return_set=False))
                         if cfg.get('default_tok'):
                             # the default q-gram tokenizer object shared by all calls that omit the argument
                             ed_mod = repo.mod('join.edit_distance_join')
